@@ -208,6 +208,24 @@ def level2(families='all'):
     return out
 
 
+def level2_deep():
+    """Every core single-argument container family (and variadic / one-slot tuples, dict values) over *every* level-1 core
+    hint: the complete product of parent and child snippets at nesting level 2 (used by C01's thorough tier only; the
+    accepting path is cheap)."""
+    L1 = [t for t in level1('core') if t[0] in ('c1', 'c2', 'tv', 'tf', 'g')]
+    out = []
+    for c in L1:
+        for f in ('list', 'Sequence', 'set', 'deque', 'Collection', 'Iterable', 'abc.KeysView', 'ValuesView', 'abc.Container', 'Counter'):
+            if f in ('set', 'abc.KeysView', 'Counter') and c[0] not in ('tv', 'tf'):
+                continue            # items / keys must be hashable: only tuples qualify
+            out.append(('c1', f, c))
+        out.append(('tv', 'b', c))
+        out.append(('tf', 'b', c))
+        out.append(('c2', 'dict', A('str'), c))
+        out.append(('u', 'O', c))
+    return out
+
+
 def reps2():
     i, s = A('int'), A('str')
     li, ds = ('c1', 'list', i), ('c2', 'dict', s, i)
